@@ -1,5 +1,6 @@
 import Libp2pModel.Proofs.C37Table
 import Libp2pModel.Proofs.C37Cap
+import Libp2pModel.Proofs.C37Spec
 /-!
 # C37 — the k-bucket routing table keeps its structural invariants (property theorems)
 
@@ -340,23 +341,38 @@ theorem insert_results {l i B : Nat} {b : Bucket} (h : BInv l i B b) (node : Nod
     simp only [Bucket.insert, hfull, if_true, hc, if_false]
     rw [hnodes]
 
-/-! ## The executable Spec accepts dumps of states that satisfy the invariant (bucket level) -/
+/-! ## The executable structural Spec accepts the model -/
 
-theorem statusOrdered_of_split : ∀ (D C : List Bool), (∀ x ∈ D, x = false) → (∀ x ∈ C, x = true) →
-    statusOrdered (D ++ C) = true
-  | [], C, _, hc => by
-    induction C with
-    | nil => rfl
-    | cons c C ih =>
-      have hct : c = true := hc c (by simp)
-      subst hct
-      simp only [List.nil_append, statusOrdered, if_true, Bool.and_eq_true, List.all_eq_true]
-      exact ⟨fun x hx => by simpa using hc x (by simp [hx]), by simpa using ih (fun x hx => hc x (by simp [hx]))⟩
-  | d :: D, C, hd, hc => by
-    have hdf : d = false := hd d (by simp)
-    subst hdf
-    simp only [List.cons_append, statusOrdered, Bool.false_eq_true, if_false, Bool.true_and]
-    exact statusOrdered_of_split D C (fun x hx => hd x (by simp [hx])) hc
+/-- **the Spec accepts the model**: in every reachable state the structural Spec (`specDump`: capacity,
+bucket index, key uniqueness, local key absent, disconnected-before-connected, pending key valid) —
+the one the driver evaluates on the IMPLEMENTATION's dumps — is `true` on the model's dump. -/
+theorem spec_accepts_model (l s T : Nat) (hl : l < 2 ^ 256) (hs : 1 ≤ s) (ops : List Op)
+    (hv : ∀ o ∈ ops, o.Valid) :
+    specDump l s ((Table.new l s T).run ops).dump = true := by
+  have h := inv l s T hl hs ops hv
+  have hloc : ((Table.new l s T).run ops).localKey = l := by
+    have : ∀ (ops : List Op) (t : Table), (t.run ops).localKey = t.localKey := by
+      intro ops
+      induction ops with
+      | nil => intro t; rfl
+      | cons o os ih =>
+        intro t
+        show ((t.step o).1.run os).localKey = _
+        rw [ih]
+        cases o <;> simp only [Table.step]
+        all_goals first
+          | rfl
+          | (rename_i key _ _; cases ha : t.access key with
+             | none => rfl
+             | some it1 =>
+               obtain ⟨i, t1⟩ := it1
+               simp only []
+               have := access_local ha
+               (repeat' split) <;> first | exact this | rfl)
+    exact this ops _
+  have := spec_dump h s (fun i hi => by rw [run_cap, bucket_new l s T i hi]; rfl)
+  rw [hloc] at this
+  exact this
 
 /-! ## Non-vacuity: a concrete run that creates, keeps, and applies a pending entry -/
 
@@ -391,6 +407,8 @@ end C37
 #print axioms C37.pending_created
 #print axioms C37.head_reconnect_drops_pending
 #print axioms C37.insert_results
+#print axioms C37.spec_accepts_model
+#print axioms C37.spec_dump
 #print axioms C37.insert_inv
 #print axioms C37.remove_spec
 #print axioms C37.update_inv
